@@ -141,7 +141,7 @@ from .public_key import SSHX509Certificate, SSHX509CertificateChain
 from .public_key import decode_ssh_public_key, decode_ssh_certificate
 from .public_key import get_public_key_algs, get_default_public_key_algs
 from .public_key import get_certificate_algs, get_default_certificate_algs
-from .public_key import get_x509_certificate_algs
+from .public_key import get_x509_certificate_algs, get_signature_alg
 from .public_key import get_default_x509_certificate_algs
 from .public_key import load_keypairs, load_default_keypairs
 from .public_key import load_public_keys, load_default_host_public_keys
@@ -988,6 +988,7 @@ class SSHConnection(SSHPacketHandler, asyncio.Protocol):
 
         self._tunnel: Optional[_TunnelProtocol] = None
 
+        self._host_key_alg = b''
         self._enc_alg_cs = b''
         self._enc_alg_sc = b''
 
@@ -1359,7 +1360,7 @@ class SSHConnection(SSHPacketHandler, asyncio.Protocol):
         return cert.key
 
     def _validate_host_key(self, host: str, addr: str, port: int,
-                           key_data: bytes) -> SSHKey:
+                           key_data: bytes, key_alg: bytes = b'') -> SSHKey:
         """Validate and return a trusted host key"""
 
         try:
@@ -1367,6 +1368,9 @@ class SSHConnection(SSHPacketHandler, asyncio.Protocol):
         except KeyImportError:
             pass
         else:
+            if key_alg and key_alg not in cert.host_key_algorithms:
+                raise ValueError('Host certificate algorithm mismatch')
+
             if cert.is_x509_chain:
                 return self._validate_x509_host_certificate_chain(
                     host, cast(SSHX509CertificateChain, cert))
@@ -1379,6 +1383,9 @@ class SSHConnection(SSHPacketHandler, asyncio.Protocol):
         except KeyImportError:
             pass
         else:
+            if key_alg and key_alg not in key.sig_algorithms:
+                raise ValueError('Host key algorithm mismatch')
+
             if self._trusted_host_keys is not None:
                 if key in self._revoked_host_keys:
                     raise ValueError('Host key is revoked')
@@ -2496,6 +2503,10 @@ class SSHConnection(SSHPacketHandler, asyncio.Protocol):
                     peer_host_key_algs) and not kex_alg.startswith(b'gss-')):
                 raise KeyExchangeFailed('Unable to find compatible '
                                         'server host key')
+        elif not kex_alg.startswith(b'gss-'):
+            self._host_key_alg = self._choose_alg('server host key',
+                                                  self._server_host_key_algs,
+                                                  peer_host_key_algs)
 
         self._enc_alg_cs = self._choose_alg('encryption', self._enc_algs,
                                             enc_algs_cs)
@@ -3724,12 +3735,19 @@ class SSHClientConnection(SSHConnection):
         return keypair.sig_algorithms[-1] in self._sig_algs
 
     def validate_server_host_key(self, key_data: bytes) -> SSHKey:
-        """Validate and return the server's host key"""
+        """Validate and return the server's host key
+
+           This method checks that the server's host key is trusted and
+           that it matches the negotiated server host key algorithm.
+           The key returned only accepts signatures made with the
+           signature algorithm of that host key algorithm.
+
+        """
 
         try:
             host_key = self._validate_host_key(
-                self._host_key_alias or self._host,
-                self._peer_addr, self._port, key_data)
+                self._host_key_alias or self._host, self._peer_addr,
+                self._port, key_data, self._host_key_alg)
         except ValueError as exc:
             host = self._host
 
@@ -3737,6 +3755,11 @@ class SSHClientConnection(SSHConnection):
                 host += f' with alias {self._host_key_alias}'
 
             raise HostKeyNotVerifiable(f'{exc} for host {host}') from None
+
+        if self._host_key_alg:
+            host_key = copy(host_key)
+            host_key.all_sig_algorithms = \
+                {get_signature_alg(self._host_key_alg)}
 
         self._server_host_key = host_key
         return host_key
